@@ -204,6 +204,8 @@ def pipeline_model_diff(d, tag, inst, res, impl):
     for l in model:
         if "NOTFOUND" in l or "MODELFAIL" in l or "NEIGHPANIC" in l or "MISSING" in l.split()[-1:]:
             return "model: " + l
+        if l.startswith("HYP2 ") and "false" in l:
+            return "a hypothesis of the pipeline-never-crashes theorem does not hold on this run: " + l
         if l.startswith("HYP ") and "false" in l:
             return "a hypothesis of the end-to-end theorem does not hold on this run: " + l
         if l.startswith("RENDER") and l.split()[1] != "ok":
